@@ -1,5 +1,8 @@
 import HcipyVerif.Lemmas.FftPipeline
 import HcipyVerif.Lemmas.FourierC02
+import HcipyVerif.Lemmas.FourierC02R4
+import HcipyVerif.Lemmas.ZoomN
+import HcipyVerif.Lemmas.Nft
 
 /-!
 # C02 — Fourier forward/backward are inverse, adjoint and energy-consistent
@@ -133,5 +136,568 @@ example : ∃ (g : Cfg ℝ ℂ) (wr wo : ℝ), g.Mo = g.M ∧ g.N ≤ g.M ∧ g.
     g.w = (wr : ℂ) ∧ (wo : ℂ) * (g.M : ℂ) * g.w = 1 ∧ 0 ≤ wo :=
   ⟨{ N := 2, M := 4, Mo := 4, δ := 1 / 2, z := 0, dT := 1 / 2, s := 0, w := ((1 / 2 : ℝ) : ℂ), emu := true },
     1 / 2, 1 / 2, rfl, by norm_num, by norm_num, rfl, by push_cast; norm_num, by norm_num⟩
+
+/-! ## Two axes: the literal 2-D pipelines `fastForward2` / `fastBackward2`
+
+Obtained from the 1-D theorems above by separability (`fastForward2_eq_iter`,
+`fastBackward2_eq_iter`) and the fact that 1-D pipelines on different axes commute
+(`FinLin.comm`, Lemmas/FourierC02R4.lean). -/
+
+/-- the literal 2-D forward pipeline as 1-D pipelines, as a function of `kx` -/
+theorem fastForward2_iter (gy gx : Cfg ℝ ℂ) (hemu : gy.emu = gx.emu) (f : ℕ → ℕ → ℂ) (ky kx : ℕ) :
+    fastForward2 expT expE gy gx f ky kx
+      = fastForward expT expE gy (fun iy => fastForward expT expE gx (f iy) kx) ky :=
+  fastForward2_eq_iter expT_isChar expE_isChar gy gx hemu f ky kx
+
+/-- the literal 2-D backward pipeline as 1-D pipelines -/
+theorem fastBackward2_iter (gy gx : Cfg ℝ ℂ) (hemu : gy.emu = gx.emu) (F : ℕ → ℕ → ℂ) (jy jx : ℕ) :
+    fastBackward2 expT expE gy gx F jy jx
+      = fastBackward expT expE gy (fun ky => fastBackward expT expE gx (F ky) jx) jy :=
+  fastBackward2_eq_iter expT_isChar expE_isChar gy gx hemu F jy jx
+
+/-- 1-D pipelines on different axes commute: backward along `x`, forward along `y` -/
+theorem fastBackward_fastForward_comm (gx gy : Cfg ℝ ℂ) (X : ℕ → ℕ → ℂ) (jx ky : ℕ) :
+    fastBackward expT expE gx (fun kx => fastForward expT expE gy (fun iy => X kx iy) ky) jx
+      = fastForward expT expE gy (fun iy => fastBackward expT expE gx (fun kx => X kx iy) jx) ky :=
+  FinLin.comm (fastBackward_finLin gx jx) (fastForward_finLin gy ky) X
+
+/-- 1-D backward pipelines on different axes commute -/
+theorem fastBackward_fastBackward_comm (gx gy : Cfg ℝ ℂ) (X : ℕ → ℕ → ℂ) (jx jy : ℕ) :
+    fastBackward expT expE gx (fun kx => fastBackward expT expE gy (fun ky => X kx ky) jy) jx
+      = fastBackward expT expE gy (fun ky => fastBackward expT expE gx (fun kx => X kx ky) jx) jy :=
+  FinLin.comm (fastBackward_finLin gx jx) (fastBackward_finLin gy jy) X
+
+/-- **2-D FastFourierTransform: backward is the adjoint of forward** in the weighted inner
+products of the two 2-D grids (weights `woy·wox` and `gy.w·gx.w`), cropped or not, both shift
+settings. -/
+theorem fast_adjoint_2d (gy gx : Cfg ℝ ℂ) (wry woy wrx wox : ℝ) (hemu : gy.emu = gx.emu)
+    (hNy : gy.N ≤ gy.M) (hMoy : gy.Mo ≤ gy.M) (hcy : gy.dT * (gy.M : ℝ) * gy.δ = 1)
+    (hgwy : gy.w = (wry : ℂ)) (hwy : (woy : ℂ) * (gy.M : ℂ) * gy.w = 1)
+    (hNx : gx.N ≤ gx.M) (hMox : gx.Mo ≤ gx.M) (hcx : gx.dT * (gx.M : ℝ) * gx.δ = 1)
+    (hgwx : gx.w = (wrx : ℂ)) (hwx : (wox : ℂ) * (gx.M : ℂ) * gx.w = 1) (x y : ℕ → ℕ → ℂ) :
+    ∑ ky ∈ range gy.Mo, ∑ kx ∈ range gx.Mo,
+        conj (y ky kx) * fastForward2 expT expE gy gx x ky kx * ((woy : ℂ) * (wox : ℂ))
+      = ∑ jy ∈ range gy.N, ∑ jx ∈ range gx.N,
+        conj (fastBackward2 expT expE gy gx y jy jx) * x jy jx * (gy.w * gx.w) := by
+  calc ∑ ky ∈ range gy.Mo, ∑ kx ∈ range gx.Mo,
+        conj (y ky kx) * fastForward2 expT expE gy gx x ky kx * ((woy : ℂ) * (wox : ℂ))
+      = ∑ kx ∈ range gx.Mo, (∑ ky ∈ range gy.Mo, conj (y ky kx) *
+          fastForward expT expE gy (fun iy => fastForward expT expE gx (x iy) kx) ky * (woy : ℂ))
+            * (wox : ℂ) := by
+        rw [Finset.sum_comm]
+        refine Finset.sum_congr rfl fun kx _ => ?_
+        rw [Finset.sum_mul]
+        refine Finset.sum_congr rfl fun ky _ => ?_
+        rw [fastForward2_iter gy gx hemu]; ring
+    _ = ∑ kx ∈ range gx.Mo, (∑ jy ∈ range gy.N,
+          conj (fastBackward expT expE gy (fun ky => y ky kx) jy) *
+            fastForward expT expE gx (x jy) kx * gy.w) * (wox : ℂ) := by
+        refine Finset.sum_congr rfl fun kx _ => ?_
+        rw [fast_adjoint gy wry woy hNy hMoy hcy hgwy hwy
+          (fun iy => fastForward expT expE gx (x iy) kx) (fun ky => y ky kx)]
+    _ = ∑ jy ∈ range gy.N, (∑ kx ∈ range gx.Mo,
+          conj (fastBackward expT expE gy (fun ky => y ky kx) jy) *
+            fastForward expT expE gx (x jy) kx * (wox : ℂ)) * gy.w := by
+        simp only [Finset.sum_mul]
+        rw [Finset.sum_comm]
+        exact Finset.sum_congr rfl fun _ _ => Finset.sum_congr rfl fun _ _ => by ring
+    _ = ∑ jy ∈ range gy.N, (∑ jx ∈ range gx.N,
+          conj (fastBackward expT expE gx
+            (fun kx => fastBackward expT expE gy (fun ky => y ky kx) jy) jx) *
+            x jy jx * gx.w) * gy.w := by
+        refine Finset.sum_congr rfl fun jy _ => ?_
+        rw [fast_adjoint gx wrx wox hNx hMox hcx hgwx hwx (x jy)
+          (fun kx => fastBackward expT expE gy (fun ky => y ky kx) jy)]
+    _ = _ := by
+        refine Finset.sum_congr rfl fun jy _ => ?_
+        rw [Finset.sum_mul]
+        refine Finset.sum_congr rfl fun jx _ => ?_
+        rw [fastBackward2_iter gy gx hemu, fastBackward_fastBackward_comm gx gy (fun kx ky => y ky kx)]
+        ring
+
+/-- **Full 2-D FFT grid pair: backward(forward(f)) = f** on every input sample. -/
+theorem full_grid_inverse_2d (gy gx : Cfg ℝ ℂ) (woy wox : ℂ) (hemu : gy.emu = gx.emu)
+    (hMoy : gy.Mo = gy.M) (hNy : gy.N ≤ gy.M) (hcy : gy.dT * (gy.M : ℝ) * gy.δ = 1)
+    (hwy : woy * (gy.M : ℂ) * gy.w = 1)
+    (hMox : gx.Mo = gx.M) (hNx : gx.N ≤ gx.M) (hcx : gx.dT * (gx.M : ℝ) * gx.δ = 1)
+    (hwx : wox * (gx.M : ℂ) * gx.w = 1)
+    (f : ℕ → ℕ → ℂ) (jy jx : ℕ) (hjy : jy < gy.N) (hjx : jx < gx.N) :
+    fastBackward2 expT expE gy gx (fastForward2 expT expE gy gx f) jy jx = f jy jx := by
+  rw [fastBackward2_iter gy gx hemu]
+  have e : (fun ky => fastBackward expT expE gx (fastForward2 expT expE gy gx f ky) jx)
+      = fun ky => fastForward expT expE gy (fun iy => f iy jx) ky := by
+    funext ky
+    have e1 : fastForward2 expT expE gy gx f ky
+        = fun kx => fastForward expT expE gy (fun iy => fastForward expT expE gx (f iy) kx) ky :=
+      funext fun kx => fastForward2_iter gy gx hemu f ky kx
+    rw [e1, fastBackward_fastForward_comm gx gy (fun kx iy => fastForward expT expE gx (f iy) kx)]
+    congr 1
+    funext iy
+    exact full_grid_inverse gx wox hMox hNx hcx hwx (f iy) jx hjx
+  rw [e]
+  exact full_grid_inverse gy woy hMoy hNy hcy hwy (fun iy => f iy jx) jy hjy
+
+/-- **Cropped 2-D FFT grid: the output energy never exceeds the input energy** (the 1-D
+inequality along `y` for every output column, then along `x` for every input row). -/
+theorem cropped_energy_le_2d (gy gx : Cfg ℝ ℂ) (wry woy wrx wox : ℝ) (hemu : gy.emu = gx.emu)
+    (hMoy : gy.Mo ≤ gy.M) (hNy : gy.N ≤ gy.M) (hcy : gy.dT * (gy.M : ℝ) * gy.δ = 1)
+    (hgwy : gy.w = (wry : ℂ)) (hwy : (woy : ℂ) * (gy.M : ℂ) * gy.w = 1) (hwoy : 0 ≤ woy)
+    (hMox : gx.Mo ≤ gx.M) (hNx : gx.N ≤ gx.M) (hcx : gx.dT * (gx.M : ℝ) * gx.δ = 1)
+    (hgwx : gx.w = (wrx : ℂ)) (hwx : (wox : ℂ) * (gx.M : ℂ) * gx.w = 1) (hwox : 0 ≤ wox)
+    (f : ℕ → ℕ → ℂ) :
+    ∑ ky ∈ range gy.Mo, ∑ kx ∈ range gx.Mo,
+        Complex.normSq (fastForward2 expT expE gy gx f ky kx) * (woy * wox)
+      ≤ ∑ jy ∈ range gy.N, ∑ jx ∈ range gx.N, Complex.normSq (f jy jx) * (wry * wrx) := by
+  have hwry : 0 ≤ wry := wr_nonneg gy wry woy hgwy hwy hwoy
+  calc ∑ ky ∈ range gy.Mo, ∑ kx ∈ range gx.Mo,
+        Complex.normSq (fastForward2 expT expE gy gx f ky kx) * (woy * wox)
+      = ∑ kx ∈ range gx.Mo, (∑ ky ∈ range gy.Mo, Complex.normSq
+          (fastForward expT expE gy (fun iy => fastForward expT expE gx (f iy) kx) ky) * woy)
+            * wox := by
+        rw [Finset.sum_comm]
+        refine Finset.sum_congr rfl fun kx _ => ?_
+        rw [Finset.sum_mul]
+        refine Finset.sum_congr rfl fun ky _ => ?_
+        rw [fastForward2_iter gy gx hemu]; ring
+    _ ≤ ∑ kx ∈ range gx.Mo, (∑ jy ∈ range gy.N,
+          Complex.normSq (fastForward expT expE gx (f jy) kx) * wry) * wox := by
+        refine Finset.sum_le_sum fun kx _ => mul_le_mul_of_nonneg_right ?_ hwox
+        exact cropped_energy_le gy wry woy hMoy hNy hcy hgwy hwy hwoy
+          (fun iy => fastForward expT expE gx (f iy) kx)
+    _ = ∑ jy ∈ range gy.N, (∑ kx ∈ range gx.Mo,
+          Complex.normSq (fastForward expT expE gx (f jy) kx) * wox) * wry := by
+        simp only [Finset.sum_mul]
+        rw [Finset.sum_comm]
+        exact Finset.sum_congr rfl fun _ _ => Finset.sum_congr rfl fun _ _ => by ring
+    _ ≤ ∑ jy ∈ range gy.N, (∑ jx ∈ range gx.N, Complex.normSq (f jy jx) * wrx) * wry := by
+        refine Finset.sum_le_sum fun jy _ => mul_le_mul_of_nonneg_right ?_ hwry
+        exact cropped_energy_le gx wrx wox hMox hNx hcx hgwx hwx hwox (f jy)
+    _ = _ := by
+        simp only [Finset.sum_mul]
+        exact Finset.sum_congr rfl fun _ _ => Finset.sum_congr rfl fun _ _ => by ring
+
+/-- **Full 2-D FFT grid pair: Parseval**,
+`Σ_{ky,kx} |F|²·(Δy/2π)(Δx/2π) = Σ_{jy,jx} |f|²·δy·δx`. -/
+theorem parseval_full_2d (gy gx : Cfg ℝ ℂ) (wry woy wrx wox : ℝ) (hemu : gy.emu = gx.emu)
+    (hMoy : gy.Mo = gy.M) (hNy : gy.N ≤ gy.M) (hcy : gy.dT * (gy.M : ℝ) * gy.δ = 1)
+    (hgwy : gy.w = (wry : ℂ)) (hwy : (woy : ℂ) * (gy.M : ℂ) * gy.w = 1)
+    (hMox : gx.Mo = gx.M) (hNx : gx.N ≤ gx.M) (hcx : gx.dT * (gx.M : ℝ) * gx.δ = 1)
+    (hgwx : gx.w = (wrx : ℂ)) (hwx : (wox : ℂ) * (gx.M : ℂ) * gx.w = 1)
+    (f : ℕ → ℕ → ℂ) :
+    ∑ ky ∈ range gy.M, ∑ kx ∈ range gx.M,
+        Complex.normSq (fastForward2 expT expE gy gx f ky kx) * (woy * wox)
+      = ∑ jy ∈ range gy.N, ∑ jx ∈ range gx.N, Complex.normSq (f jy jx) * (wry * wrx) := by
+  calc ∑ ky ∈ range gy.M, ∑ kx ∈ range gx.M,
+        Complex.normSq (fastForward2 expT expE gy gx f ky kx) * (woy * wox)
+      = ∑ kx ∈ range gx.M, (∑ ky ∈ range gy.M, Complex.normSq
+          (fastForward expT expE gy (fun iy => fastForward expT expE gx (f iy) kx) ky) * woy)
+            * wox := by
+        rw [Finset.sum_comm]
+        refine Finset.sum_congr rfl fun kx _ => ?_
+        rw [Finset.sum_mul]
+        refine Finset.sum_congr rfl fun ky _ => ?_
+        rw [fastForward2_iter gy gx hemu]; ring
+    _ = ∑ kx ∈ range gx.M, (∑ jy ∈ range gy.N,
+          Complex.normSq (fastForward expT expE gx (f jy) kx) * wry) * wox := by
+        refine Finset.sum_congr rfl fun kx _ => ?_
+        rw [parseval_full gy wry woy hMoy hNy hcy hgwy hwy
+          (fun iy => fastForward expT expE gx (f iy) kx)]
+    _ = ∑ jy ∈ range gy.N, (∑ kx ∈ range gx.M,
+          Complex.normSq (fastForward expT expE gx (f jy) kx) * wox) * wry := by
+        simp only [Finset.sum_mul]
+        rw [Finset.sum_comm]
+        exact Finset.sum_congr rfl fun _ _ => Finset.sum_congr rfl fun _ _ => by ring
+    _ = ∑ jy ∈ range gy.N, (∑ jx ∈ range gx.N, Complex.normSq (f jy jx) * wrx) * wry := by
+        refine Finset.sum_congr rfl fun jy _ => ?_
+        rw [parseval_full gx wrx wox hMox hNx hcx hgwx hwx (f jy)]
+    _ = _ := by
+        simp only [Finset.sum_mul]
+        exact Finset.sum_congr rfl fun _ _ => Finset.sum_congr rfl fun _ _ => by ring
+
+/-- Non-vacuity of the 2-D hypothesis bundle: two consistent full axes with matching real weights
+and equal shift setting (the 1-D witness on both axes). -/
+example : ∃ (gy gx : Cfg ℝ ℂ) (wry woy wrx wox : ℝ), gy.emu = gx.emu ∧
+    gy.Mo = gy.M ∧ gy.N ≤ gy.M ∧ gy.dT * (gy.M : ℝ) * gy.δ = 1 ∧ gy.w = (wry : ℂ) ∧
+    (woy : ℂ) * (gy.M : ℂ) * gy.w = 1 ∧ 0 ≤ woy ∧
+    gx.Mo = gx.M ∧ gx.N ≤ gx.M ∧ gx.dT * (gx.M : ℝ) * gx.δ = 1 ∧ gx.w = (wrx : ℂ) ∧
+    (wox : ℂ) * (gx.M : ℂ) * gx.w = 1 ∧ 0 ≤ wox :=
+  ⟨{ N := 2, M := 4, Mo := 4, δ := 1 / 2, z := 0, dT := 1 / 2, s := 0, w := ((1 / 2 : ℝ) : ℂ), emu := true },
+   { N := 2, M := 4, Mo := 4, δ := 1 / 2, z := 0, dT := 1 / 2, s := 0, w := ((1 / 2 : ℝ) : ℂ), emu := true },
+    1 / 2, 1 / 2, 1 / 2, 1 / 2, rfl, rfl, by norm_num, by norm_num, rfl, by push_cast; norm_num,
+    by norm_num, rfl, by norm_num, by norm_num, rfl, by push_cast; norm_num, by norm_num⟩
+
+/-! ## `n` axes: the iterated pipelines `fastForwardN` / `fastBackwardN` -/
+
+/-- hypothesis bundle for one axis of a **full** FFT grid pair: `Mo = M`, `N ≤ M`, consistency
+`dT·M·δ = 1`, and an output weight `wOut g` with `wOut g·M·w = 1` -/
+def FullAxis (wOut : Cfg ℝ ℂ → ℂ) (g : Cfg ℝ ℂ) : Prop :=
+  g.Mo = g.M ∧ g.N ≤ g.M ∧ g.dT * (g.M : ℝ) * g.δ = 1 ∧ wOut g * (g.M : ℂ) * g.w = 1
+
+/-- satisfiability of `FullAxis` (N = 2, M = Mo = 4, δ = w = 1/2, dT = wOut = 1/2) -/
+example : ∃ (wOut : Cfg ℝ ℂ → ℂ) (g : Cfg ℝ ℂ), FullAxis wOut g :=
+  ⟨fun _ => ((1 / 2 : ℝ) : ℂ),
+    { N := 2, M := 4, Mo := 4, δ := 1 / 2, z := 0, dT := 1 / 2, s := 0, w := ((1 / 2 : ℝ) : ℂ), emu := true },
+    rfl, by norm_num, by norm_num, by push_cast; norm_num⟩
+
+/-- **Full `n`-D FFT grid pair: backward(forward(f)) = f** for the iterated pipelines on any
+number of axes (each axis full and consistent, padding allowed, any shift setting per axis), at
+every in-range index list. -/
+theorem full_grid_inverse_nd (wOut : Cfg ℝ ℂ → ℂ) (gs : List (Cfg ℝ ℂ))
+    (hgs : ∀ g ∈ gs, FullAxis wOut g) (f : List ℕ → ℂ) (js : List ℕ)
+    (hjs : List.Forall₂ (fun j g => j < g.N) js gs) :
+    fastBackwardN expT expE gs (fastForwardN expT expE gs f) js = f js := by
+  induction gs generalizing f js with
+  | nil =>
+    cases hjs
+    rfl
+  | cons g gs ih =>
+    cases hjs with
+    | cons hj hjs =>
+      rename_i j js
+      obtain ⟨hMo, hN, hc, hw⟩ := hgs g (List.mem_cons_self ..)
+      have ih' := ih (fun g' hg' => hgs g' (List.mem_cons_of_mem _ hg'))
+      rw [fastBackwardN_cons]
+      have e : (fun k => fastBackwardN expT expE gs
+            (fun idx => fastForwardN expT expE (g :: gs) f (k :: idx)) js)
+          = fun k => fastForward expT expE g (fun i => f (i :: js)) k := by
+        funext k
+        have h1 := fastBackwardN_comm (T := expT) (E := expE) (fastForward_finLin (T := expT) (E := expE) g k) gs
+          (fun i idx => fastForwardN expT expE gs (fun idx' => f (i :: idx')) idx) js
+        refine h1.trans ?_
+        congr 1
+        funext i
+        exact ih' (fun idx' => f (i :: idx')) js hjs
+      rw [e]
+      exact full_grid_inverse g (wOut g) hMo hN hc hw (fun i => f (i :: js)) j hj
+
+/-! ## Adjointness of the code models: MatrixFourierTransform, one ZoomFFT axis -/
+
+/-- hypothesis: a weights object (`Weights.scalar` or `Weights.array`) has real entries -/
+def RealWeights (w : Weights ℂ) : Prop := ∀ i, conj (w.get i) = w.get i
+
+/-- satisfiability of `RealWeights`, both branches -/
+example : RealWeights (.scalar ((1 / 2 : ℝ) : ℂ)) ∧ RealWeights (.array fun i => ((i : ℝ) : ℂ)) :=
+  ⟨fun _ => Complex.conj_ofReal _, fun _ => Complex.conj_ofReal _⟩
+
+/-- **MatrixFourierTransform (ndim = 2): `backward` is the adjoint of `forward`** — for the
+two-`gemm` code models `mftForward` / `mftBackward` (Model/Mft.lean), arbitrary separated
+coordinates (no grid relation at all), both weight branches (`.scalar` / `.array`) on either side,
+real output weights; flat indices, weighted inner products `Σ conj(a)·b·w`. -/
+theorem mft_adjoint (Nx Ny Nu Nv : ℕ) (x y u v : ℕ → ℝ) (win wout : Weights ℂ)
+    (hwout : RealWeights wout) (X Y : ℕ → ℂ) :
+    ∑ k ∈ range (Nv * Nu),
+        conj (Y k) * mftForward expE Nx Ny Nu Nv x y u v win X k * wout.get k
+      = ∑ j ∈ range (Ny * Nx),
+        conj (mftBackward expE (starRingEnd ℂ) Nx Ny Nu Nv x y u v wout Y j) * X j * win.get j := by
+  rw [sum_flat, sum_flat]
+  have hf : ∀ iv ∈ range Nv, ∀ iu ∈ range Nu,
+      conj (Y (iv * Nu + iu)) * mftForward expE Nx Ny Nu Nv x y u v win X (iv * Nu + iu)
+          * wout.get (iv * Nu + iu)
+        = conj (Y (iv * Nu + iu)) *
+          (∑ iy ∈ range Ny, ∑ ix ∈ range Nx, X (iy * Nx + ix) * win.get (iy * Nx + ix)
+            * expE (-(u iu * x ix + v iv * y iy))) * wout.get (iv * Nu + iu) := by
+    intro iv _ iu hiu
+    rw [mft_forward_eq_sum_2d_get expE_isChar Nx Ny Nu Nv x y u v win X (mem_range.mp hiu)]
+  have hb : ∀ iy ∈ range Ny, ∀ ix ∈ range Nx,
+      conj (mftBackward expE (starRingEnd ℂ) Nx Ny Nu Nv x y u v wout Y (iy * Nx + ix))
+          * X (iy * Nx + ix) * win.get (iy * Nx + ix)
+        = conj (∑ iv ∈ range Nv, ∑ iu ∈ range Nu,
+            Y (iv * Nu + iu) * wout.get (iv * Nu + iu) * expE (u iu * x ix + v iv * y iy))
+          * X (iy * Nx + ix) * win.get (iy * Nx + ix) := by
+    intro iy hiy ix hix
+    rw [mft_backward_eq_sum_2d_complex expE_isChar expE_conj Nx Ny Nu Nv x y u v wout Y
+      (mem_range.mp hix) (mem_range.mp hiy)]
+  rw [Finset.sum_congr rfl fun iv hiv => Finset.sum_congr rfl (hf iv hiv),
+    Finset.sum_congr rfl fun iy hiy => Finset.sum_congr rfl (hb iy hiy)]
+  exact adjoint_sum_2d_exp Nx Ny Nu Nv x y u v win.get wout.get hwout X Y
+
+/-- **MatrixFourierTransform (ndim = 1): `backward` is the adjoint of `forward`** for the code
+models `mftForward1` / `mftBackward1`, arbitrary coordinates, real output weights. -/
+theorem mft_adjoint_1d (Nx Nu : ℕ) (x u : ℕ → ℝ) (win wout : Weights ℂ)
+    (hwout : RealWeights wout) (X Y : ℕ → ℂ) :
+    ∑ k ∈ range Nu, conj (Y k) * mftForward1 expE Nx x u win X k * wout.get k
+      = ∑ j ∈ range Nx,
+        conj (mftBackward1 expE (starRingEnd ℂ) Nu x u wout Y j) * X j * win.get j := by
+  simp only [mft_forward_eq_sum_1d, mft_backward_eq_sum_1d_complex expE_conj]
+  have h := adjoint_sum_finset (range Nx) (range Nu) (fun k j => expE (-(u k * x j))) win.get
+    wout.get hwout X Y
+  simp only [expE_conj, neg_neg] at h
+  exact h
+
+/-- **NaiveFourierTransform: `backward` is the adjoint of `forward`** for the code models of both
+paths (precomputed matrices: `nftForwardMat`/`nftBackwardMat`; on the fly: `nftForwardFly`/
+`nftBackwardFly`), arbitrary point sets in any dimension, per-point weights (output weights
+real). -/
+theorem naive_adjoint (n m : ℕ) (us xs : List (ℕ → ℝ)) (win wout : ℕ → ℂ)
+    (hwout : ∀ k, conj (wout k) = wout k) (X Y : ℕ → ℂ) :
+    (∑ k ∈ range m, conj (Y k) * nftForwardMat expE n us xs win X k * wout k
+      = ∑ j ∈ range n, conj (nftBackwardMat expE m us xs wout Y j) * X j * win j) ∧
+    (∑ k ∈ range m, conj (Y k) * nftForwardFly expE n us xs win X k * wout k
+      = ∑ j ∈ range n, conj (nftBackwardFly expE m us xs wout Y j) * X j * win j) := by
+  have h := adjoint_sum_finset (range n) (range m)
+    (fun k j => expE (-(dotCoords us xs k j))) win wout hwout X Y
+  simp only [expE_conj, neg_neg] at h
+  constructor
+  · simp only [nft_forward_mat_eq_sum, nft_backward_mat_eq_sum]
+    exact h
+  · simp only [nft_forward_fly_eq_sum, nft_backward_fly_eq_sum]
+    exact h
+
+/-- hypothesis bundle for one ZoomFFT axis: non-empty grids and FFT lengths without wrap-around
+(`next_fast_len(n + m - 1) ≥ n + m - 1` for both CZTs) -/
+def ZoomAxisOK (n m nfft nfftInv : ℕ) : Prop :=
+  0 < n ∧ 0 < m ∧ n + m - 1 ≤ nfft ∧ m + n - 1 ≤ nfftInv
+
+/-- satisfiability of `ZoomAxisOK` -/
+example : ZoomAxisOK 3 4 6 6 := by unfold ZoomAxisOK; omega
+
+/-- **One ZoomFFT axis: the `backward` axis step is the adjoint of the `forward` axis step** —
+for the Bluestein code models `zoomAxis` (applied to `field·input_weights`) and `zoomAxisInv`
+(applied to `field·output_weights`), any two regular grids, real output weights. -/
+theorem zoom_axis_adjoint (n m nfft nfftInv : ℕ) (hok : ZoomAxisOK n m nfft nfftInv)
+    (x0 δ u0 Δ : ℝ) (win wout : ℕ → ℂ) (hwout : ∀ k, conj (wout k) = wout k) (X Y : ℕ → ℂ) :
+    ∑ k ∈ range m, conj (Y k) * zoomAxis n m nfft expE x0 δ u0 Δ (fun i => X i * win i) k * wout k
+      = ∑ j ∈ range n,
+        conj (zoomAxisInv expE n m nfftInv x0 δ u0 Δ (fun k => Y k * wout k) j) * X j * win j := by
+  obtain ⟨hn, hm, h1, h2⟩ := hok
+  have hf : ∀ k ∈ range m,
+      conj (Y k) * zoomAxis n m nfft expE x0 δ u0 Δ (fun i => X i * win i) k * wout k
+        = conj (Y k) * (∑ i ∈ range n, X i * win i
+            * expE (-((u0 + (k : ℝ) * Δ) * (x0 + (i : ℝ) * δ)))) * wout k := by
+    intro k hk
+    rw [zoom_axis_eq_sum expE_isChar two_ne_zero n m nfft hn h1 x0 δ u0 Δ _ k (mem_range.mp hk)]
+    simp only [zoomSum, sumRange_eq]
+  have hb : ∀ j ∈ range n,
+      conj (zoomAxisInv expE n m nfftInv x0 δ u0 Δ (fun k => Y k * wout k) j) * X j * win j
+        = conj (∑ k ∈ range m, Y k * wout k
+            * expE ((u0 + (k : ℝ) * Δ) * (x0 + (j : ℝ) * δ))) * X j * win j := by
+    intro j hj
+    unfold zoomAxisInv
+    rw [zoom_axis_backward_eq_sum expE_isChar two_ne_zero m n nfftInv hm h2 x0 δ u0 Δ _ j
+      (mem_range.mp hj)]
+  rw [Finset.sum_congr rfl hf, Finset.sum_congr rfl hb]
+  have h := adjoint_sum_finset (range n) (range m)
+    (fun k j => expE (-((u0 + (k : ℝ) * Δ) * (x0 + (j : ℝ) * δ)))) win wout hwout X Y
+  simp only [expE_conj, neg_neg] at h
+  exact h
+
+/-! ## Adjointness on `n` axes: the iterated FFT pipelines and the ZoomFFT axis loop with weights
+
+Inner products are sums over index lists (`sumOverN dims`, Model/FftIndexN.lean — the same
+iterated sum the `n`-D defining sums of C01 are written with). -/
+
+/-- **`n`-axis FastFourierTransform: `backward` is the adjoint of `forward`** for the iterated
+pipelines `fastForwardN` / `fastBackwardN`, any number of axes, padding and cropping allowed on
+every axis (`N ≤ M`, `Mo ≤ M`), both shift settings, in the weighted inner products of the two
+grids (input weight `Π w_i`, output weight `Π wo_i` with `wo_i` real, `wo_i·M_i·w_i = 1`). -/
+theorem fast_adjoint_nd (wo : Cfg ℝ ℂ → ℝ) (gs : List (Cfg ℝ ℂ))
+    (hgs : ∀ g ∈ gs, g.N ≤ g.M ∧ g.Mo ≤ g.M ∧ g.dT * (g.M : ℝ) * g.δ = 1 ∧
+      ((wo g : ℝ) : ℂ) * (g.M : ℂ) * g.w = 1)
+    (X Y : List ℕ → ℂ) :
+    sumOverN (gs.map fun g => g.Mo) (fun ks =>
+        conj (Y ks) * fastForwardN expT expE gs X ks * weightOutN (fun g => ((wo g : ℝ) : ℂ)) gs)
+      = sumOverN (gs.map fun g => g.N) (fun js =>
+        conj (fastBackwardN expT expE gs Y js) * X js * weightN gs) := by
+  have hL := sumOverN_congr (gs.map fun g => g.Mo)
+    (fun ks => conj (Y ks) * fastForwardN expT expE gs X ks * weightOutN (fun g => ((wo g : ℝ) : ℂ)) gs)
+    (fun ks => conj (Y ks) * (sumOverN (gs.map fun g => g.N) fun js =>
+      X js * weightN gs * (expT (-(dotA gs ks js)) * expE (-(dotS gs js))))
+        * weightOutN (fun g => ((wo g : ℝ) : ℂ)) gs) (by
+      intro ks hks
+      rw [fastForwardN_eq_sumForwardN expT_isChar expE_isChar expT_period gs
+        (fun g hg => ⟨(hgs g hg).1, (hgs g hg).2.1, (hgs g hg).2.2.1⟩) X ks
+        (List.forall₂_map_right_iff.mp hks)]
+      rfl)
+  have hR := sumOverN_congr (gs.map fun g => g.N)
+    (fun js => conj (fastBackwardN expT expE gs Y js) * X js * weightN gs)
+    (fun js => conj (sumOverN (gs.map fun g => g.Mo) fun ks =>
+      Y ks * weightOutN (fun g => ((wo g : ℝ) : ℂ)) gs
+        * conj (expT (-(dotA gs ks js)) * expE (-(dotS gs js)))) * X js * weightN gs) (by
+      intro js hjs
+      rw [fastBackwardN_eq_sumBackwardN expT_isChar expE_isChar expT_period
+        (fun g => ((wo g : ℝ) : ℂ)) gs
+        (fun g hg => ⟨(hgs g hg).1, (hgs g hg).2.1, (hgs g hg).2.2.1, (hgs g hg).2.2.2⟩) Y js
+        (List.forall₂_map_right_iff.mp hjs)]
+      simp only [sumBackwardN, map_mul, expT_conj, expE_conj, neg_neg])
+  rw [hL, hR]
+  exact adjoint_sumOverN _ _ (fun ks js => expT (-(dotA gs ks js)) * expE (-(dotS gs js)))
+    (fun _ => weightN gs) (fun _ => weightOutN (fun g => ((wo g : ℝ) : ℂ)) gs)
+    (fun _ => conj_weightOutN_real wo gs) X Y
+
+/-- satisfiability of the hypothesis bundle of `fast_adjoint_nd`: two axes, one padded and cropped
+(`N = 2, M = 4, Mo = 3`), one full (`N = M = Mo = 2`), `δ = w = 1/2`, `wo = dT = 1/(M·δ)` -/
+example : ∃ (wo : Cfg ℝ ℂ → ℝ) (gs : List (Cfg ℝ ℂ)), gs.length = 2 ∧
+    ∀ g ∈ gs, g.N ≤ g.M ∧ g.Mo ≤ g.M ∧ g.dT * (g.M : ℝ) * g.δ = 1 ∧
+      ((wo g : ℝ) : ℂ) * (g.M : ℂ) * g.w = 1 :=
+  ⟨fun g => g.dT,
+    [{ N := 2, M := 4, Mo := 3, δ := 1 / 2, z := 0, dT := 1 / 2, s := 0, w := ((1 / 2 : ℝ) : ℂ), emu := true },
+     { N := 2, M := 2, Mo := 2, δ := 1 / 2, z := 1, dT := 1, s := 1 / 3, w := ((1 / 2 : ℝ) : ℂ), emu := true }],
+    rfl, by
+      intro g hg
+      simp only [List.mem_cons, List.not_mem_nil, or_false] at hg
+      rcases hg with rfl | rfl
+      · refine ⟨by norm_num, by norm_num, by norm_num, ?_⟩
+        push_cast; norm_num
+      · refine ⟨by norm_num, by norm_num, by norm_num, ?_⟩
+        push_cast; norm_num⟩
+
+/-- **Full `n`-D FFT grid pair: Parseval** — `Σ_ks |F f|²·Π wo_i = Σ_js |f|²·Π w_i` (written with
+`conj a * a`) for the iterated pipeline on any number of full, consistent axes; from
+`fast_adjoint_nd` with `Y = F f` and `full_grid_inverse_nd`. -/
+theorem parseval_full_nd (wo : Cfg ℝ ℂ → ℝ) (gs : List (Cfg ℝ ℂ))
+    (hgs : ∀ g ∈ gs, FullAxis (fun g => ((wo g : ℝ) : ℂ)) g) (f : List ℕ → ℂ) :
+    sumOverN (gs.map fun g => g.Mo) (fun ks =>
+        conj (fastForwardN expT expE gs f ks) * fastForwardN expT expE gs f ks
+          * weightOutN (fun g => ((wo g : ℝ) : ℂ)) gs)
+      = sumOverN (gs.map fun g => g.N) (fun js => conj (f js) * f js * weightN gs) := by
+  rw [fast_adjoint_nd wo gs (fun g hg => by
+    obtain ⟨hMo, hN, hc, hw⟩ := hgs g hg
+    exact ⟨hN, le_of_eq hMo, hc, hw⟩) f (fastForwardN expT expE gs f)]
+  apply sumOverN_congr
+  intro js hjs
+  rw [full_grid_inverse_nd _ gs hgs f js (List.forall₂_map_right_iff.mp hjs)]
+
+/-- **Cropped `n`-D FFT grid: the output energy never exceeds the input energy** — iterated
+pipeline on any number of axes, each padded and/or cropped (`N ≤ M`, `Mo ≤ M`), consistent, real
+input weight `wr g`, non-negative output weight `wo g` with `wo·M·w = 1`; energies are sums over
+index lists of `|·|²` times the product of the per-axis weights.  Induction over the axes with
+the 1-D inequality `cropped_energy_le` on the first axis. -/
+theorem cropped_energy_le_nd (wr wo : Cfg ℝ ℂ → ℝ) (gs : List (Cfg ℝ ℂ))
+    (hgs : ∀ g ∈ gs, g.Mo ≤ g.M ∧ g.N ≤ g.M ∧ g.dT * (g.M : ℝ) * g.δ = 1 ∧
+      g.w = ((wr g : ℝ) : ℂ) ∧ ((wo g : ℝ) : ℂ) * (g.M : ℂ) * g.w = 1 ∧ 0 ≤ wo g)
+    (f : List ℕ → ℂ) :
+    sumOverN (gs.map fun g => g.Mo) (fun ks => Complex.normSq (fastForwardN expT expE gs f ks))
+        * (gs.map wo).prod
+      ≤ sumOverN (gs.map fun g => g.N) (fun js => Complex.normSq (f js)) * (gs.map wr).prod := by
+  induction gs generalizing f with
+  | nil => simp [sumOverN, fastForwardN_nil]
+  | cons g gs ih =>
+    obtain ⟨hMo, hN, hc, hgw, hw, hwo⟩ := hgs g (List.mem_cons_self ..)
+    have ih' := ih (fun g' hg' => hgs g' (List.mem_cons_of_mem _ hg'))
+    have hwr : 0 ≤ wr g := wr_nonneg g (wr g) (wo g) hgw hw hwo
+    have hWo : 0 ≤ (gs.map wo).prod := by
+      apply List.prod_nonneg
+      intro x hx
+      obtain ⟨g', hg', rfl⟩ := List.mem_map.mp hx
+      exact (hgs g' (List.mem_cons_of_mem _ hg')).2.2.2.2.2
+    simp only [List.map_cons, List.prod_cons, sumOverN, sumRange_eq]
+    calc (∑ k ∈ range g.Mo, sumOverN (gs.map fun g => g.Mo) fun idx =>
+            Complex.normSq (fastForwardN expT expE (g :: gs) f (k :: idx))) * (wo g * (gs.map wo).prod)
+        = sumOverN (gs.map fun g => g.Mo) (fun ks => ∑ k ∈ range g.Mo,
+            Complex.normSq (fastForward expT expE g
+              (fun i => fastForwardN expT expE gs (fun idx => f (i :: idx)) ks) k) * wo g)
+            * (gs.map wo).prod := by
+          rw [sumOverN_finset_sum]
+          simp only [sumOverN_mul_right, fastForwardN_cons]
+          rw [← Finset.sum_mul]
+          ring
+      _ ≤ sumOverN (gs.map fun g => g.Mo) (fun ks => ∑ i ∈ range g.N,
+            Complex.normSq (fastForwardN expT expE gs (fun idx => f (i :: idx)) ks) * wr g)
+            * (gs.map wo).prod := by
+          apply mul_le_mul_of_nonneg_right _ hWo
+          apply sumOverN_mono
+          intro ks
+          exact cropped_energy_le g (wr g) (wo g) hMo hN hc hgw hw hwo _
+      _ = ∑ i ∈ range g.N, (sumOverN (gs.map fun g => g.Mo) (fun ks =>
+            Complex.normSq (fastForwardN expT expE gs (fun idx => f (i :: idx)) ks))
+              * (gs.map wo).prod) * wr g := by
+          rw [sumOverN_finset_sum]
+          simp only [sumOverN_mul_right]
+          rw [Finset.sum_mul]
+          exact Finset.sum_congr rfl fun _ _ => by ring
+      _ ≤ ∑ i ∈ range g.N, (sumOverN (gs.map fun g => g.N) (fun js =>
+            Complex.normSq (f (i :: js))) * (gs.map wr).prod) * wr g := by
+          apply Finset.sum_le_sum
+          intro i _
+          exact mul_le_mul_of_nonneg_right (ih' fun idx => f (i :: idx)) hwr
+      _ = _ := by
+          rw [Finset.sum_mul]
+          exact Finset.sum_congr rfl fun _ _ => by ring
+
+/-- satisfiability of the hypothesis bundle of `cropped_energy_le_nd`: a cropped axis
+(`N = 2, M = 4, Mo = 3`) and a full one, `δ = w = 1/2`, `wo = dT` -/
+example : ∃ (wr wo : Cfg ℝ ℂ → ℝ) (gs : List (Cfg ℝ ℂ)), gs.length = 2 ∧
+    ∀ g ∈ gs, g.Mo ≤ g.M ∧ g.N ≤ g.M ∧ g.dT * (g.M : ℝ) * g.δ = 1 ∧
+      g.w = ((wr g : ℝ) : ℂ) ∧ ((wo g : ℝ) : ℂ) * (g.M : ℂ) * g.w = 1 ∧ 0 ≤ wo g :=
+  ⟨fun _ => 1 / 2, fun g => g.dT,
+    [{ N := 2, M := 4, Mo := 3, δ := 1 / 2, z := 0, dT := 1 / 2, s := 0, w := ((1 / 2 : ℝ) : ℂ), emu := true },
+     { N := 2, M := 2, Mo := 2, δ := 1 / 2, z := 1, dT := 1, s := 1 / 3, w := ((1 / 2 : ℝ) : ℂ), emu := false }],
+    rfl, by
+      intro g hg
+      simp only [List.mem_cons, List.not_mem_nil, or_false] at hg
+      rcases hg with rfl | rfl
+      · refine ⟨by norm_num, by norm_num, by norm_num, rfl, ?_, by norm_num⟩
+        push_cast; norm_num
+      · refine ⟨by norm_num, by norm_num, by norm_num, rfl, ?_, by norm_num⟩
+        push_cast; norm_num⟩
+
+/-- **`n`-axis ZoomFastFourierTransform: `backward` is the adjoint of `forward`** — the axis loops
+`zoomForwardN` (on `field·input_weights`) and `zoomBackwardN` (on `field·output_weights`) of
+Model/ZoomN.lean, any list of axes, any two regular grids, per-point weights (output weights
+real), every `nfft ≥ n + m − 1` on every axis. -/
+theorem zoom_adjoint_nd (axs : List (ZAx ℝ))
+    (hok : ∀ a ∈ axs, ZoomAxisOK a.n a.m a.nfft a.nfftInv)
+    (win wout : List ℕ → ℂ) (hwout : ∀ ks, conj (wout ks) = wout ks) (X Y : List ℕ → ℂ) :
+    sumOverN (axs.map fun a => a.m) (fun ks =>
+        conj (Y ks) * zoomForwardN expE axs win X ks * wout ks)
+      = sumOverN (axs.map fun a => a.n) (fun js =>
+        conj (zoomBackwardN expE axs wout Y js) * X js * win js) := by
+  have hL := sumOverN_congr (axs.map fun a => a.m)
+    (fun ks => conj (Y ks) * zoomForwardN expE axs win X ks * wout ks)
+    (fun ks => conj (Y ks) * (sumOverN (axs.map fun a => a.n) fun js =>
+      X js * win js * expE (-(dotUX axs ks js))) * wout ks) (by
+      intro ks hks
+      rw [zoomN_eq_sumN expE_isChar two_ne_zero axs
+        (fun a ha => ⟨(hok a ha).1, (hok a ha).2.2.1⟩) win X ks (List.forall₂_map_right_iff.mp hks)]
+      rfl)
+  have hR := sumOverN_congr (axs.map fun a => a.n)
+    (fun js => conj (zoomBackwardN expE axs wout Y js) * X js * win js)
+    (fun js => conj (sumOverN (axs.map fun a => a.m) fun ks =>
+      Y ks * wout ks * conj (expE (-(dotUX axs ks js)))) * X js * win js) (by
+      intro js hjs
+      rw [zoomN_backward_eq_sumN expE_isChar two_ne_zero axs
+        (fun a ha => ⟨(hok a ha).2.1, (hok a ha).2.2.2⟩) wout Y js (List.forall₂_map_right_iff.mp hjs)]
+      simp only [zoomSumBackwardN, expE_conj, neg_neg])
+  rw [hL, hR]
+  exact adjoint_sumOverN _ _ (fun ks js => expE (-(dotUX axs ks js))) win wout hwout X Y
+
+/-- satisfiability of the hypothesis of `zoom_adjoint_nd`: two axes -/
+example : ∃ axs : List (ZAx ℝ), axs.length = 2 ∧ ∀ a ∈ axs, ZoomAxisOK a.n a.m a.nfft a.nfftInv :=
+  ⟨[⟨2, 3, 4, 4, 0, 1, 0, 1⟩, ⟨3, 2, 5, 4, -1, 1 / 2, 0, 1⟩], rfl, by
+    intro a ha
+    simp only [List.mem_cons, List.not_mem_nil, or_false] at ha
+    rcases ha with rfl | rfl <;> exact ⟨by norm_num, by norm_num, by norm_num, by norm_num⟩⟩
+
+/-! ## Matrix-valued FourierFilter (`fourier_operations.py`, `_operation`, matrix-field branch) -/
+
+/-- **FourierFilter with a matrix transfer function: `backward` is the adjoint of `forward`.**
+Code model `filterMX` (Model/FilterM.lean, run by the driver op `C02 filterm` and compared with
+`FourierFilter.forward/backward` on 2-component fields): `forward x = Pᴴ·F⁻¹·(D·(F·P·x))` with `P`
+the zero padding into the internal array, `Pᴴ` the cut-out, `F` the transform matrix of `fftn`,
+`F⁻¹ = c⁻¹·Fᴴ` that of `ifftn` (unnormalised DFT: `c = M`, real), and `D r` a 2×2 matrix applied
+to the two tensor components at every frequency sample `r` (`field_dot`); the adjoint call uses
+`field_conjugate_transpose(D)` (`fmCtrX`).  Unweighted inner product over samples and components.
+The identity needs only `c` real (no unitarity of `F`, any `P`, any `D`). -/
+theorem filterM_adjoint (n M : ℕ) (P F : ℕ → ℕ → ℂ) (c : ℂ) (hc : conj c = c)
+    (D : ℕ → Bool → Bool → ℂ) (x y : Bool → ℕ → ℂ) :
+    ∑ a, ∑ i ∈ range n, conj (y a i) * filterMX n M P F (starRingEnd ℂ) c⁻¹ D x a i
+      = ∑ a, ∑ i ∈ range n,
+          conj (filterMX n M P F (starRingEnd ℂ) c⁻¹ (fmCtrX (starRingEnd ℂ) D) y a i) * x a i :=
+  filterMX_adjoint n M P F c hc D x y
+
+/-- Without the transposition in `field_conjugate_transpose` (entry-wise conjugate only) the
+backward call is **not** the adjoint: `n = M = 1`, `P = F = c = 1`, `D = [[0,1],[0,0]]`,
+`x = e₁`, `y = e₀`. -/
+theorem Bad.filterM_conj_only_not_adjoint :
+    ∃ (D : ℕ → Bool → Bool → ℂ) (x y : Bool → ℕ → ℂ),
+      ∑ a, ∑ i ∈ range 1, conj (y a i) * filterMX 1 1 (fun _ _ => 1) (fun _ _ => 1) (starRingEnd ℂ) 1⁻¹ D x a i
+        ≠ ∑ a, ∑ i ∈ range 1,
+            conj (filterMX 1 1 (fun _ _ => 1) (fun _ _ => 1) (starRingEnd ℂ) 1⁻¹ (fun r a b => conj (D r a b)) y a i) * x a i := by
+  refine ⟨fun _ a b => if a = false ∧ b = true then 1 else 0, fun b _ => if b = true then 1 else 0,
+    fun a _ => if a = false then 1 else 0, ?_⟩
+  simp [filterMX, fmSynthesisX, fmAnalysisX, sumRange]
+
+/-- satisfiability of the hypothesis of `filterM_adjoint`: the DFT normalisation `c = M` is real -/
+example (M : ℕ) : conj (M : ℂ) = (M : ℂ) := Complex.conj_natCast M
 
 end HcipyVerif.C02
